@@ -14,6 +14,8 @@ package memberlist
 
 //@ func pkcs7decode(buf, bs)
 //@   safety [C13]
+//@   requires pad [C13,C14]: len(buf) > 0 && buf[len(buf)-1] <= len(buf)
+//@   ensures strip [C12]: result == buf[:len(buf) - buf[len(buf)-1]]
 
 //@ func remainingSuspicionTime(n, k, elapsed, min, max)
 //@   safety [C06]
@@ -174,6 +176,8 @@ package memberlist
 
 //@ ghost $aliveRes int
 //@ ghost $reclaimAge int
+//@ ghost $numConcurrent int
+//@ ghost $qlen int
 //@ iface AliveDelegate.NotifyAlive(peer)
 //@   assigns $aliveRes
 //@   ensures res: $aliveRes == result
@@ -258,6 +262,8 @@ package memberlist
 //@   safety [C13]
 //@   modular
 //@   requires ok: mlNet(m) && from != nil
+//@   at call (*container/list.List).Len: set $qlen := res
+//@   at call (*container/list.List).PushBack: assert cap-queue [C13]: $qlen < m.config.HandoffQueueDepth
 
 //@ func (*Memberlist).handleCompound(m, buf, from, timestamp)
 //@   safety [C13]
@@ -353,6 +359,8 @@ package memberlist
 //@ func decompressBuffer(c)
 //@   safety [C13]
 //@   requires nonnil: c != nil
+//@   at call io.CopyN: assert cap-decompress [C13]: arg2 <= maxDecompressedBytes + 1
+//@   ensures cap [C13]: result1 == nil ==> len(result0) <= maxDecompressedBytes
 
 //@ func (*Memberlist).getNextMessage(m)
 //@   safety [C13]
@@ -414,3 +422,70 @@ package memberlist
 //@ func (*TransmitLimitedQueue).GetBroadcasts(q, overhead, limit)
 //@   modular
 //@   requires nn: q != nil
+
+// every element of the two hand-off queues is a msgHandoff (the only PushBack site is handleCommand; checked structurally under C13)
+//@ axiom listvals: forall p *list.Element :: typeIs(p.Value, msgHandoff)
+
+// ---------------------------------------------------------------------
+// C13 / C09: inbound stream path
+// ---------------------------------------------------------------------
+
+//@ atomic Memberlist.pushPullReq rely stable
+//@ func (*Memberlist).handleConn(m, conn)
+//@   safety [C13]
+//@   requires ok: mlNet(m) && conn != nil
+//@   at call (*Memberlist).readRemoteState: assert cap-concurrent [C13]: $numConcurrent < maxPushPullRequests
+//@   at call (*sync/atomic.Uint32).Add #1: set $numConcurrent := res
+//@   ensures balanced [C13]: m.pushPullReq == old(m.pushPullReq)
+
+//@ func (*Memberlist).readStream(m, conn, streamLabel)
+//@   safety [C13,C14]
+//@   modular
+//@   requires ok: mlNet(m) && conn != nil
+//@   ensures nn: result3 == nil ==> result1 != nil && result2 != nil
+
+//@ func (*Memberlist).decryptRemoteState(m, bufConn, streamLabel)
+//@   safety [C13,C14]
+//@   modular
+//@   requires ok: mlNet(m) && bufConn != nil && m.config.Keyring != nil
+//@   at call io.CopyN #2: assert cap-cipher [C13]: arg2 <= maxPushStateBytes
+
+//@ func (*Memberlist).readRemoteState(m, bufConn, dec)
+//@   safety [C13,C09]
+//@   modular
+//@   requires ok: mlNet(m) && bufConn != nil && dec != nil
+//@   at make header.Nodes: assert cap-nodes [C13,C09]: 0 <= n && n <= maxPushStateNodes
+//@   at make header.UserStateLen: assert cap-user [C13,C09]: 0 < n && n <= maxPushStateBytes
+
+//@ func (*Memberlist).readUserMsg(m, bufConn, dec)
+//@   safety [C13]
+//@   modular
+//@   requires ok: mlNet(m) && bufConn != nil && dec != nil
+//@   at make header.UserMsgLen: assert cap-msg [C13]: 0 < n && n <= maxUserMsgBytes
+
+//@ func (*Memberlist).mergeRemoteState(m, join, remoteNodes, userBuf)
+//@   safety [C13,C09]
+//@   modular
+//@   requires ok: mlNet(m)
+
+//@ func (*Memberlist).sendLocalState(m, conn, join, streamLabel)
+//@   safety [C13,C20]
+//@   modular
+//@   requires ok: mlNet(m) && conn != nil
+//@   loop #4 invariant hdr [C13,C20]: buflen(bufConn) >= 8
+
+//@ func RemoveLabelHeaderFromStream(conn)
+//@   safety [C13,C16]
+//@   modular
+//@   requires nn: conn != nil
+//@   ensures nn: result2 == nil ==> result0 != nil
+
+//@ func (*Memberlist).mergeState(m, remote)
+//@   safety [C13,C09]
+//@   modular
+//@   requires ok: mlNet(m)
+
+//@ func (*Memberlist).verifyProtocol(m, remote)
+//@   safety [C13,C09]
+//@   modular
+//@   requires ok: mlNet(m)
